@@ -61,7 +61,13 @@ func runC08(c *eng.Ctx) {
 		belowHW := eng.CmpEdges(fn, off, eng.Param("hw"), eng.LT)
 		scans := eng.CallsIn(fn, cl+"segmentScanner.Scan")
 		writes := eng.CallsIn(fn, cl+"segment.WriteMessageSet")
-		if len(writes) != 1 || len(scans) == 0 || len(keyNil) == 0 || len(isLatest) == 0 || len(aboveHW) == 0 {
+		// the keep decision, however it is written: separate tests chained with ||, or the negation of a named
+		// `discard := key != nil && offset != latestOffset && offset < hw` — on a keep edge one of the three is known
+		keep := eng.EdgesWhere(fn, func(a eng.AtomView) bool {
+			return a.RelHolds(key, eng.NilConst, eng.EQ) || a.RelHolds(off, latest, eng.EQ) || a.RelHolds(off, eng.Param("hw"), eng.GE|eng.GT)
+		})
+		_, _, _ = keyNil, isLatest, aboveHW
+		if len(writes) != 1 || len(scans) == 0 || len(keep) == 0 || len(keySet) == 0 || len(notLatest) == 0 || len(belowHW) == 0 {
 			c.Unresolved("the retention test (key == nil || offset == latestOffset || offset >= hw) and its WriteMessageSet in cleanSegment")
 		} else {
 			var boundary []ssa.Instruction
@@ -95,7 +101,7 @@ func runC08(c *eng.Ctx) {
 				}
 			}
 			// (b) the keep: written when any of the three holds
-			q := &eng.PathQuery{Fn: fn, FromAfter: boundary, Target: func(x ssa.Instruction) bool { return x == writes[0].(ssa.Instruction) }, CutEdges: append(append(append([]eng.Edge{}, keyNil...), isLatest...), aboveHW...), CutInstr: isScan}
+			q := &eng.PathQuery{Fn: fn, FromAfter: boundary, Target: func(x ssa.Instruction) bool { return x == writes[0].(ssa.Instruction) }, CutEdges: keep, CutInstr: isScan}
 			w := q.Find()
 			c.Check(w == nil, "message kept on key == nil ∨ latest ∨ offset >= hw", c.Pos(writes[0].(ssa.Instruction)), "WriteMessageSet is reached only over one of the three keep edges", "a message is copied although none of the keep conditions holds (path "+w.String()+")")
 			// latestOffset is the key table's value for this message's key
